@@ -23,18 +23,13 @@ def worker(version, args):
     tmp = tempfile.mkdtemp(prefix="c03_")
     try:
         base = bases.base_file(version, args.get("driver"))
-        with cc.quiet():
-            s0 = AoE2DEScenario.from_file(base)
-            s0.map_manager.map_size = 4
-            small = os.path.join(tmp, "small.aoe2scenario")
-            s0.write_to_file(small)
-            del s0
+        smalls = histories.small_bases(version, base, tmp, cc.quiet)
         cmds, expect, m4 = [f"table {version}"], [], []
         for h in range(args["nhist"]):
             hseed = f"C03:{args['seed']}:{version}:{h}"
             rng = random.Random(hseed)
             with cc.quiet():
-                scn = AoE2DEScenario.from_file(small)
+                scn = AoE2DEScenario.from_file(smalls[h % len(smalls)])
             H = histories.History(scn, rng, version)
             for sidx in range(rng.randint(1, 3)):
                 n0 = len(H.ops)
